@@ -4,10 +4,10 @@ id="$1"; wt=/tmp/wt/$id; sd=$wt/SEEDED
 cd "$wt" || exit 2
 git checkout -q -- . 2>/dev/null; git clean -fdq tests 2>/dev/null
 echo "== patch applies to clean HEAD:"; git apply --check "$sd/patch.diff" && echo yes || { echo NO; exit 1; }
-echo "== demo WITHOUT change:"; sh "$sd/demo.sh" 2>&1 | grep -E "^test result|FAILED|^error" | head -4; 
+echo "== demo WITHOUT change:"; bash "$sd/demo.sh" 2>&1 | grep -E "^test result|FAILED|^error" | head -4; 
 git checkout -q -- . ; git clean -fdq tests 2>/dev/null
 git apply "$sd/patch.diff"
-echo "== demo WITH change:"; sh "$sd/demo.sh" 2>&1 | grep -E "^test result|FAILED|^error" | head -6
+echo "== demo WITH change:"; bash "$sd/demo.sh" 2>&1 | grep -E "^test result|FAILED|^error" | head -6
 git checkout -q -- Cargo.toml 2>/dev/null; git clean -fdq tests 2>/dev/null
 echo "== suite WITH change:"; cargo test --workspace --no-fail-fast --offline 2>&1 | grep -E "^test result|FAILED|failed" | awk '{p+=$4; f+=$6} END {print "passed",p,"failed",f}'
 echo "== hooks build WITH change:"; cargo build --offline --features verif-hooks,tls,tls-ring,sni 2>&1 | grep -E "^error|Finished" | head -3
